@@ -539,7 +539,7 @@ impl Harness for C18 {
                 soft_s: 60,
             },
             Tier::Thorough => Budget {
-                runs: 1_500_000,
+                runs: 3_000_000,
                 soft_s: 900,
             },
         }
